@@ -74,7 +74,7 @@ SIGS = {
     ("Path", "is_dir"): dict(ret="bool", fs=True),
     ("Path", "exists"): dict(ret="bool", fs=True),
     ("Path", "relative_to"): dict(ret="ext:Path", raises={"ValueError": None}),
-    ("Path", "read_text"): dict(ret="str", fs=True),
+    ("Path", "read_text"): dict(ret="str", fs=True, raises={"OSError": None, "UnicodeDecodeError": None}),
     ("Path", "write_text"): dict(ret="int", fs=True, effect=True),
     ("Path", "mkdir"): dict(ret="None", fs=True, effect=True),
     ("PathParents", "__contains__"): dict(ret="bool"),
@@ -218,7 +218,7 @@ def uninterp(B, st, fname, args, ret, node, raises=None, fs=False, effect=False)
             terms.append(eng.unwrap(st, a))
     if fs:
         terms.append(st.ghost.get("fs_version", z3.IntVal(0)))
-    if raises:
+    if raises and not st.spec_mode:
         names = list(raises)
         k = eng.choose(st, len(names) + 1)
         if k > 0:
@@ -364,6 +364,38 @@ def _h_file_read(B, st, base, args, kwargs, node):
     return uninterp(B, st, "fs.read_text_utf8", [a["path"]], "str", node, fs=True, raises={"UnicodeDecodeError": None})
 
 
+def under_fns():
+    wu = z3.Function("walk_under", z3.StringSort(), z3.IntSort(), z3.BoolSort())
+    pu = z3.Function("path_under", z3.IntSort(), z3.IntSort(), z3.BoolSort())
+    return wu, pu
+
+
+def ensure_under_axioms(B):
+    if getattr(B, "_under_ax", False):
+        return
+    B._under_ax = True
+    wu, pu = under_fns()
+    a, b = z3.String("ua!"), z3.String("ub!")
+    t = z3.Int("ut!")
+    join = z3.Function("x_os_path_join_2", z3.StringSort(), z3.StringSort(), z3.StringSort())
+    pctor = z3.Function("x_pathlib_Path_1", z3.StringSort(), z3.IntSort())
+    ax = B.eng.axioms
+    ax.append(FA([a, b, t], z3.Implies(wu(a, t), wu(join(a, b), t)), patterns=[wu(join(a, b), t)]), keys={"walk_under", "path_under"})
+    ax.append(FA([a, t], z3.Implies(wu(a, t), pu(pctor(a), t)), patterns=[pu(pctor(a), t)]), keys={"walk_under", "path_under"})
+    B.eng.used_assumptions.add("os.walk(top) yields directories under top; os.path.join(dir, name) stays under top; "
+                               "Path(p).relative_to(top) raises ValueError only if p is not under top")
+
+
+def _h_relative_to(B, st, base, args, kwargs, node):
+    eng = B.eng
+    ensure_under_axioms(B)
+    wu, pu = under_fns()
+    ok = pu(eng.ext_term(st, base), eng.ext_term(st, args[0]))
+    if not st.spec_mode:
+        eng.require(st, ok, "ValueError", node, "relative_to: not in the subpath")
+    return uninterp(B, st, "Path.relative_to", [base, args[0]], "ext:Path", node)
+
+
 def _h_walk(B, st, args, kwargs, node):
     """os.walk(top): top-down protocol; yields (root, dirs, files) with fresh lists of non-empty names."""
     it = VIter("os.walk", TTuple(TStr, TList(TStr), TList(TStr)))
@@ -371,20 +403,18 @@ def _h_walk(B, st, args, kwargs, node):
     st.assume(it.n >= 0)
     wid = st.fresh("walk_id", z3.IntSort())
 
+    ensure_under_axioms(B)
+    top_term = B.eng.ext_term(st, args[0]) if isinstance(args[0], VExt) else z3.IntVal(0)
+
     def elem_at(eng, s, i):
         rootf = z3.Function("walk_root", z3.IntSort(), z3.IntSort(), z3.StringSort())
+        s.assume(under_fns()[0](rootf(wid, i), top_term))
         dirs = eng.new_list(s, TStr, None, "walk_dirs")
         files = eng.new_list(s, TStr, None, "walk_files")
-        for l in (dirs, files):
-            n = eng.list_len(s, l)
-            arr = z3.Select(s.eltmap(z3.StringSort()), l.ref)
-            k = z3.Int("wk!")
-            s.assume(FA([k], z3.Implies(z3.And(k >= 0, k < n), z3.Length(z3.Select(arr, k)) > 0),
-                               patterns=[z3.Select(arr, k)]))
         return VTuple([VStr(rootf(wid, i)), dirs, files])
 
     it.elem_at = elem_at
-    B.eng.used_assumptions.add("os.walk: top-down (root, dirs, files) protocol, names are non-empty strings, pruning by in-place assignment to dirs")
+    B.eng.used_assumptions.add("os.walk: top-down (root, dirs, files) protocol, pruning by in-place assignment to dirs")
     return it
 
 
@@ -393,6 +423,7 @@ def install_io(B):
     B.ext_fns["builtins.open"] = _h_open
     B.ext_fns["os.walk"] = _h_walk
     B.ext_meths[("File", "read")] = _h_file_read
+    B.ext_meths[("Path", "relative_to")] = _h_relative_to
     B.ext_meths[("Lexer", "get_tokens_unprocessed")] = _h_get_tokens_unprocessed
     B.ext_meths[("File", "__enter__")] = lambda B, st, base, args, kwargs, node: base
     B.ext_table["os.walk"] = ("fn", "os.walk")
